@@ -2,11 +2,12 @@
 """Refresh the generated tables of DESIGN.md (last-run column of §11.3, seed metadata head)."""
 import json,glob,re,subprocess
 s=open('/verif/DESIGN.md').read()
+cut=s.index('### 11.3'); pre,s=s[:cut],s[cut:]
 for f in glob.glob('/verif/evidence/C*.json'):
     d=json.load(open(f)); c=d['property_id']
     row='%s: %.2e states (%.2e executions), %.0f s'%(d['tier'],d['coverage']['states'],d['coverage']['evaluations'],d['wall_s'])
     s=re.sub(r'(\| %s \| [^\n]*\| )[^|\n]*( \|\n)'%c, lambda m:m.group(1)+row+m.group(2), s, count=1)
-open('/verif/DESIGN.md','w').write(s)
+open('/verif/DESIGN.md','w').write(pre+s)
 head=subprocess.check_output(['git','-C','/repo','rev-parse','--short','HEAD']).decode().strip()
 for m in glob.glob('/verif/seeded/*/meta.json'):
     d=json.load(open(m)); d['checked_at_repo_head']=head; json.dump(d,open(m,'w'),indent=1,ensure_ascii=False)
